@@ -79,6 +79,7 @@ class Sim:
         self.stats: dict = {}
         self.probes: dict = {}
         self.cases: set = set()
+        self.shared_attrs: dict = {}
         self.state_hashes: set = set()
         self._pending_abort = None
         self.hist_chain = None
@@ -988,7 +989,7 @@ class Sim:
             tags.append("invalid_" + inv)
         resolved = {"node": node, "t": t, "track": tid, "force": force, "npix": None if pixels is None else len(pixels[0])}
         out = self._user_action(
-            op, lambda: self._call_add_node(node, attrs, pixels, force), "an", resolved, tags,
+            op, lambda: self._call_add_node(node, attrs, pixels, force, reuse=bool(op.get("reuse_dict")) and not inv), "an", resolved, tags,
             named={"nodes": {node}, "tracks": named_tracks},
             extra={"allowed_removals": allowed, "reason": inv or ("division" if "upstream_division" in tags or "downstream_division" in tags else None)},
         )
@@ -999,9 +1000,14 @@ class Sim:
         self._maybe_reinvert(op, out)
         return out
 
-    def _call_add_node(self, node, attrs, pixels, force):
+    def _call_add_node(self, node, attrs, pixels, force, reuse=False):
         from funtracks.user_actions import UserAddNode
 
+        if reuse:
+            # a client that keeps one attributes dict and overwrites the fields it knows
+            # about before every call (the dict object itself is handed to the library)
+            self.shared_attrs.update(attrs)
+            return UserAddNode(self.tracks, node, self.shared_attrs, pixels=pixels, force=force)
         return UserAddNode(self.tracks, node, dict(attrs), pixels=pixels, force=force)
 
     def _bg_pixels(self, t, spec):
